@@ -50,6 +50,24 @@ TOKENS = [
     ('V_IdealGas', 'IdealGas'), ('V_placeholder_pad', ' placeholder '), ('V_Harmonic', 'HARMONIC'),
     ('V_EmptyModeUpper', 'EMPTYMODE'),
     ('F_H2O', 'H2O'), ('F_CH3OH_pad', ' CH3OH'), ('F_PtCl12', 'PtCl12'), ('F_CO', 'CO'), ('F_CO_pad', ' CO '),
+    # audit round: every documented header, parameters, cell types
+    ('V_CO2', 'CO2'), ('V_C2H2', 'C2H2'), ('V_CH4', 'CH4'), ('V_H2', 'H2'), ('V_N2', 'N2'), ('V_O2', 'O2'),
+    ('V_C2H6', 'C2H6'), ('V_at_rel', 'C2H6.xyz'), ('V_at_abs', '@/CH4.xyz'), ('V_at_pad', ' H2O '),
+    ('V_oc_a', 'OUTCAR_a'), ('V_oc_b', '@/OUTCAR_b '), ('V_oc_b_key', '@/OUTCAR_b'),
+    ('H_flag', 'flag'), ('H_when', 'when'), ('H_uni', '\xa0\u00e9nergie \u0394H\t'), ('H_x_1', 'x.1'),
+    ('H_element_dash_O', 'element-O'), ('H_elements_dash_Pt', ' elements-Pt'),
+    ('H_list_flags', 'list.flags'), ('H_dict_misc_flag', 'dict.misc.flag'),
+    ('H_nasa_a_low_1', 'nasa.a_low.1'),
+    ('H_nasa_a_low_2', 'nasa.a_low.2'),
+    ('H_nasa_a_low_3', 'nasa.a_low.3'),
+    ('H_nasa_a_low_4', 'nasa.a_low.4'),
+    ('H_nasa_a_low_5', 'nasa.a_low.5'),
+    ('H_nasa_a_high_0', 'nasa.a_high.0'),
+    ('H_nasa_a_high_1', 'nasa.a_high.1'),
+    ('H_nasa_a_high_2', 'nasa.a_high.2'),
+    ('H_nasa_a_high_4', 'nasa.a_high.4'),
+    ('H_nasa_a_high_5', 'nasa.a_high.5'),
+    ('H_nasa_a_high_6', 'nasa.a_high.6'),
     # headers outside the documented forms (MC_ExcelReader_wide.cfg only)
     ('W_n_elements_extra', 'n_elements_extra'), ('W_reformulated', 'reformulated'),
     ('W_natoms', 'natoms'), ('W_nasa_note', 'nasa_note'), ('W_playlist_x', 'playlist.x'),
@@ -67,7 +85,7 @@ def tokens_module():
              'T_dot == 46']
     for name, text in TOKENS:
         nm = name if name[:2] in ('Q_', 'H_', 'V_', 'F_', 'W_') else 'T_' + name
-        lines.append('%s == <<%s>>   \\* "%s"' % (nm, ', '.join(str(ord(c)) for c in text), text))
+        lines.append('%s == <<%s>>   \\* %s' % (nm, ', '.join(str(ord(c)) for c in text), ascii(text)))
     lines.append('=============================================================================')
     return '\n'.join(lines) + '\n'
 
